@@ -7,11 +7,13 @@ on compiled ASTs; `semCall` is the specification: the call tree unfolded through
 the callable tables with locations, comments, include structure, callable
 names, scalar file-type names, stage output file names, volatile, retain,
 resources, src and chunk parameters erased and all tables sorted.
-The fact `Gen.c15SelfCompare` is regenerated from the source on every run.
+The facts `Gen.c15SelfCompare` and `Gen.c15StructsCompared` (the struct-definition
+pass of the repaired comparison exists) are regenerated from the source on every run.
 -/
 import Martian.Equiv
 import Martian.EquivMeaning
 import Proofs.Equiv
+import Proofs.EquivStructs
 import Proofs.EquivLockLTS
 import Proofs.EquivLockLTSOld
 import Gen.Facts
@@ -42,29 +44,53 @@ theorem equiv_iff_sem_eq (a b : Prog) (ha : a.wf = true) (hb : b.wf = true) :
   simp only [Prog.wf, Bool.and_eq_true] at ha hb
   exact equivCall_iff_sem_eq _ _ _ _ _ ha.1.1 hb.1.1 ha.1.2 hb.1.2 ha.2 hb.2
 
+/-- Regenerated obligation (repair of F20): after the call comparison
+`Ast.EquivalentCall` runs the second pass `structComparer.call`, which compares
+the DEFINITIONS of the struct types used by the compared parameters, and refuses
+when it fails.  (False on a tree without that pass — struct types are then
+compared by name only; negative witness `struct_definition_change_accepted_without_second_pass`.) -/
+theorem struct_definitions_compared : Gen.c15StructsCompared = true := by decide
+
 /-- THE statement at the level of the full meaning (`Martian.Equiv.meaning`: the
 call graph unfolded from the top-level call with all callable bodies, parameter
-types, modifiers, bindings, plus every aspect listed in `Ignored`):
-re-attach is accepted iff the COMPARED part of the meaning is unchanged.
-What `Ast.EquivalentCall` ignores, exactly as the Go code does, is the `ignored`
-component — constructor by constructor `Ignored.calleeName`, `.volatile`,
-`.stageSrc`, `.resources`, `.retain`, `.chunkParams`, `.fileTypeName` (scalar
-file kinds only), `.outName` (stage outputs, non-file pipeline outputs), `.help`,
-`.structDef` — and what is not meaning at all (comments, whitespace, every
-ordering, include structure, unreachable callables and types).  Each ignored
-aspect has its own edit class in the correspondence harness, which checks that
-the real code accepts it AND that the model sees exactly that aspect change. -/
-theorem equiv_iff_compared_meaning_eq (a b : FullProg) (ha : a.core.wf = true) (hb : b.core.wf = true) :
-    equivalentCall Gen.c15SelfCompare a.core b.core = true ↔
-      (meaning (Prog.fuel a.core b.core) a).compared = (meaning (Prog.fuel a.core b.core) b).compared :=
-  equiv_iff_sem_eq a.core b.core ha hb
+types, modifiers, bindings, AND the unfolded definitions of the struct types of
+all those parameters — member names, what is compared of each member, the
+definitions of the members' own struct types, recursively — plus every aspect
+listed in `Ignored`): re-attach is accepted iff the COMPARED part of the meaning
+is unchanged.  `equivalentCallFull` is `Ast.EquivalentCall` as repaired for F20:
+`CallStm.EquivalentTo` on the top-level calls, then `structComparer.call`.
+What it ignores, exactly as the Go code does, is the `ignored` component —
+constructor by constructor `Ignored.calleeName`, `.volatile`, `.stageSrc`,
+`.resources`, `.retain`, `.chunkParams`, `.fileTypeName` (scalar file kinds
+only), `.outName` (stage outputs, non-file pipeline outputs), `.help` — and what
+is not meaning at all (comments, whitespace, every ordering, include structure,
+unreachable callables and types).  Each ignored aspect has its own edit class
+in the correspondence harness, which checks that the real code accepts it AND
+that the model sees exactly that aspect change.  Hypotheses (checked by the
+driver on every real AST): the compiled ASTs are well formed; member names of
+a struct are distinct. -/
+theorem equiv_iff_compared_meaning_eq (a b : FullProg) (ha : a.core.wf = true) (hb : b.core.wf = true)
+    (hsa : structsWf a.structs = true) (hsb : structsWf b.structs = true) :
+    equivalentCallFull Gen.c15SelfCompare Gen.c15StructsCompared a b = true ↔
+      (meaning (Prog.fuel a.core b.core) (sfuel a b) a).compared
+        = (meaning (Prog.fuel a.core b.core) (sfuel a b) b).compared := by
+  have h1 := equiv_iff_sem_eq a.core b.core ha hb
+  simp only [Prog.wf, Bool.and_eq_true] at ha hb
+  have h2 := typesCall_iff a.structs b.structs hsa hsb (sfuel a b) (Prog.fuel a.core b.core)
+    a.core.tab b.core.tab ha.1.1 hb.1.1 a.core.call b.core.call
+  rw [struct_definitions_compared]
+  simp only [equivalentCallFull, meaning, Bool.and_eq_true, Bool.not_true, Bool.false_or, Prod.mk.injEq]
+  exact and_congr h1 h2
 
-/-- Nothing in `Extra` (src, resources, retain, chunk parameters, help) and no
-struct definition can change the verdict: the comparison never reads them. -/
-theorem ignored_components_do_not_matter (a a' b : FullProg) (h : a.core = a'.core) :
-    equivalentCall Gen.c15SelfCompare a.core b.core = equivalentCall Gen.c15SelfCompare a'.core b.core ∧
-    equivalentCall Gen.c15SelfCompare b.core a.core = equivalentCall Gen.c15SelfCompare b.core a'.core := by
-  rw [h]; exact ⟨rfl, rfl⟩
+/-- Nothing in `Extra` (src, resources, retain, chunk parameters, help) can
+change the verdict: neither pass of the comparison reads it.  (Before the repair
+of F20 this also held for struct definitions; `struct_definition_change_refused`
+shows that it no longer does.) -/
+theorem ignored_components_do_not_matter (a a' b : FullProg) (h : a.core = a'.core)
+    (hs : a.structs = a'.structs) (sc tc : Bool) :
+    equivalentCallFull sc tc a b = equivalentCallFull sc tc a' b ∧
+    equivalentCallFull sc tc b a = equivalentCallFull sc tc b a' := by
+  simp only [equivalentCallFull, sfuel, h, hs, and_self]
 
 /-- `volatile` is ignored by `Modifiers.EquivalentTo` (both sides). -/
 theorem volatile_is_ignored (sc : Bool) (m o : Mods) (v : Bool) :
@@ -145,6 +171,32 @@ example : (Prog.mk (demoTab [67] [117] true) (topCall 1)).wf = true := by decide
 example : equivCall false 3 (demoTab kA [116] false) (demoTab [67] [117] true) (topCall 1) (topCall 1) = true := by
   decide
 example : equivCall false 3 (demoTab kA [116] false) (demoTab kA [116] false) (topCall 1) (topCall 2) = false := by
+  decide
+
+/-! Struct definitions (repair of F20): stage `A(in Pt p)` called from the
+top level; `struct Pt(int x)` versus `struct Pt(int x, int w)`. -/
+private def kPt : Key := [80, 116]
+private def pPt : Param := { tname := kPt, arrayDim := 0, mapDim := 0, fileKind := 0, outName := [] }
+private def ptProg (fields : List (Key × Param)) : FullProg :=
+  { core := { tab := [(kA, .stage false [(kX, pPt)] [])],
+              call := { id := kA, decId := kA, binds := [(kX, .atom .null)], mods := mods0 } },
+    extras := [], structs := [(kPt, fields)] }
+
+/-- non-vacuity of `equiv_iff_compared_meaning_eq`, and the point of the repair:
+a member added to a struct type that a reachable parameter uses changes the
+compared meaning and is refused (both directions); the unchanged definition is
+accepted. -/
+theorem struct_definition_change_refused :
+    (ptProg [(kX, pInt)]).core.wf = true ∧ structsWf (ptProg [(kX, pInt)]).structs = true
+    ∧ structsWf (ptProg [(kX, pInt), (kY, pInt)]).structs = true
+    ∧ equivalentCallFull false true (ptProg [(kX, pInt)]) (ptProg [(kX, pInt)]) = true
+    ∧ equivalentCallFull false true (ptProg [(kX, pInt)]) (ptProg [(kX, pInt), (kY, pInt)]) = false
+    ∧ equivalentCallFull false true (ptProg [(kX, pInt), (kY, pInt)]) (ptProg [(kX, pInt)]) = false := by
+  decide
+
+/-- Negative witness (F20): without the second pass the same change is accepted. -/
+theorem struct_definition_change_accepted_without_second_pass :
+    equivalentCallFull false false (ptProg [(kX, pInt)]) (ptProg [(kX, pInt), (kY, pInt)]) = true := by
   decide
 
 /-- Negative witness (F11): when the second lookup reads the receiver's own
